@@ -41,6 +41,27 @@ def gen_desc(rng):
         desc["structs"].append({"name": "M", "fields": fields})
         desc["impls"].append({"protocol": "can", "type": "M", "name": "M", "fields": [("id", rng.randrange(2048)), ("device", "ecu")], "signals": []})
         return desc, target, False
+    if rng.random() < 0.12:
+        # a multiplexed message around the limit, the multiplexer first, in the middle or last (the piece that ends the payload is then
+        # the multiplexer itself): the size that counts is that of the whole payload wherever the multiplexer sits
+        widths = [rng.choice([8, 16, 24, 32]) for _ in range(rng.randint(2, 4))]
+        total = sum(widths)
+        sel_w = rng.choice([8, 16])
+        while total + sel_w < 57:
+            widths.append(8); total += 8
+        target = total + sel_w
+        names = [f"f{j}" for j in range(len(widths))]
+        fields = [{"name": nm, "id": j, "type": ("u", w)} for j, (nm, w) in enumerate(zip(names, widths))]
+        pos = rng.choice([0, len(fields), len(fields), rng.randrange(len(fields) + 1)])
+        fields.insert(pos, {"name": "sel", "id": 50, "type": ("u", sel_w)})
+        for j, f in enumerate(fields):
+            f["id"] = j
+        k = rng.randint(1, 4)
+        sigs = [{"name": nm, "fields": [("mux_count", k), ("mux_signal", "sel")]} for nm in rng.sample(names, rng.randint(1, len(names)))]
+        desc["structs"].append({"name": "In", "fields": [{"name": "x", "id": 0, "type": ("u", 8)}]})
+        desc["structs"].append({"name": "M", "fields": fields})
+        desc["impls"].append({"protocol": "can", "type": "M", "name": "M", "fields": [("id", rng.randrange(2048)), ("device", "ecu")], "signals": sigs})
+        return desc, target, False
     target = rng.choice([57, 60, 63, 64, 65, 66, 72, 80, 100, 128, 200, rng.randint(57, 200)])
     inner_fields = [{"name": "x", "id": 0, "type": ("u", rng.randint(1, 16))}, {"name": "y", "id": 1, "type": ("i", rng.randint(1, 16))}]
     desc["structs"].append({"name": "In", "fields": inner_fields})
